@@ -35,7 +35,8 @@ def _update_coherence():
 
 
 def extra_obligations(tier):
-    return [solve.custom_result('assemble_tools_cy:prange[race-lemma]', A.F, '_asm_core_vec_*_kernel', A.race_lemma),
+    _pu = solve.custom_result('paramuse:C08', 'pyiga/assemble.py', 'all functions', __import__('pyvc.paramuse', fromlist=['x']).obligations(['pyiga/assemble.py'], 'paramuse'))
+    _r = [solve.custom_result('assemble_tools_cy:prange[race-lemma]', A.F, '_asm_core_vec_*_kernel', A.race_lemma),
             solve.custom_result('assemble_tools_cy:assemble_vector[ravel-lemma]', A.F, 'assemble_vector / next_lexicographic', A.ravel_successor_lemma),
             solve.custom_result('assemblers:kernel-frames', 'pyiga/assemblers.pyx', 'entry_impl / combine', A.kernel_frame_obligations),
             solve.custom_result('assemble_tools_cy:zero-initialised-results', 'pyiga/genericasm.pxi', 'multi_entries / multi_blocks', A.zero_init_obligations),
@@ -43,7 +44,7 @@ def extra_obligations(tier):
             solve.custom_result('codegen:update-coherence', 'pyiga/codegen/cython.py', 'AsmGenerator.generate_update', _update_coherence),
             solve.custom_result('codegen:update_params-coherence', 'pyiga/codegen/cython.py', 'AsmGenerator.generate_update_params', _update_params_coherence)] + \
            [solve.custom_result('mlmatrix:to_seq[lemma L=%d]' % L, mlmatrix.F, 'to_seq', (lambda L=L: mlmatrix.horner_injective(L))) for L in (2, 3)]
-
+    return list(_r) + [_pu]
 
 MANIFEST = {
     'category': 'proof',
